@@ -20,7 +20,20 @@ pub enum Scenario {
     PanicHoldingLock,
     Deadlock,
     StepBound,
+    /// a task panics while another, unfinished task owns a thread-local whose destructor uses Shuttle
+    PanicWithTls,
     Pass,
+}
+
+struct TouchesTls;
+impl Drop for TouchesTls {
+    fn drop(&mut self) {
+        let _ = TLB.try_with(|x| *x);
+    }
+}
+shuttle::thread_local! {
+    static TLA: TouchesTls = TouchesTls;
+    static TLB: u32 = 5;
 }
 
 impl Scenario {
@@ -32,6 +45,7 @@ impl Scenario {
             "panic-lock" => Scenario::PanicHoldingLock,
             "deadlock" => Scenario::Deadlock,
             "step-bound" => Scenario::StepBound,
+            "panic-tls" => Scenario::PanicWithTls,
             _ => Scenario::Pass,
         }
     }
@@ -43,6 +57,7 @@ impl Scenario {
             Scenario::PanicHoldingLock => "panic-lock",
             Scenario::Deadlock => "deadlock",
             Scenario::StepBound => "step-bound",
+            Scenario::PanicWithTls => "panic-tls",
             Scenario::Pass => "pass",
         }
     }
@@ -121,6 +136,23 @@ pub fn body(sc: Scenario, salt: u64) {
                 let _gb = b.lock().unwrap();
                 let _ga = a.lock().unwrap();
             }
+            h.join().unwrap();
+        }
+        Scenario::PanicWithTls => {
+            let x2 = x.clone();
+            let h = shuttle::thread::spawn(move || {
+                TLA.with(|_| ());
+                let _ = x2.compare_exchange(0, 1, Ordering::SeqCst, Ordering::SeqCst);
+                // stays alive (blocked) while main fails
+                while x2.load(Ordering::SeqCst) != 2 {
+                    shuttle::thread::park();
+                }
+            });
+            if x.load(Ordering::SeqCst) == 1 {
+                std::panic::panic_any(Marker(5000 + salt));
+            }
+            x.store(2, Ordering::SeqCst);
+            h.thread().unpark();
             h.join().unwrap();
         }
         Scenario::StepBound => {
@@ -323,6 +355,7 @@ pub fn one_case(history: &[(String, Scenario, bool)], mode: &str, sc: Scenario, 
         Scenario::PanicHoldingLock => format!("marker:{}", 4000 + salt),
         Scenario::Deadlock => "deadlock:".to_string(),
         Scenario::StepBound => "step-bound".to_string(),
+        Scenario::PanicWithTls => format!("marker:{}", 5000 + salt),
         Scenario::Pass => "pass:".to_string(),
     };
     if !outcome.starts_with(&want) {
@@ -415,7 +448,7 @@ pub fn one_case(history: &[(String, Scenario, bool)], mode: &str, sc: Scenario, 
 
 pub fn run(r: &mut Report) {
     let mut rng = Rng::new(r.seed ^ 0xC12);
-    let scenarios = [Scenario::PanicMain, Scenario::PanicThread, Scenario::PanicFuture, Scenario::PanicHoldingLock, Scenario::Deadlock, Scenario::StepBound];
+    let scenarios = [Scenario::PanicMain, Scenario::PanicThread, Scenario::PanicFuture, Scenario::PanicHoldingLock, Scenario::Deadlock, Scenario::StepBound, Scenario::PanicWithTls];
     let modes = ["N", "P", "F"];
     let mut cases: Vec<(Vec<(String, Scenario, bool)>, String, Scenario, u64)> = vec![];
     // no history
